@@ -1373,6 +1373,13 @@ theorem validateStream_is_a_skeleton_path (c : Cfg) (oc : Bytes → BodyOutcome)
       runK c oc t ⟨r, [], []⟩ = some s' ∧ s'.req = (validateStream c oc r).1 := by
   rw [vsr_vr_segments.2]; exact validateStream_follows_vrSegs c oc r
 
+/-- what `stepK` assumes of ValidateParameter: its skeleton has no statement that touches the body stream, no callback,
+    no call of a function of the table, nothing unrecognised -/
+theorem validateParameter_leaves_stream_alone :
+    (Flow.census (bodyOf "ValidateParameter" c13BodyFlow)).take 5 = [0, 0, 0, 0, 0] ∧
+    Flow.countL Flow.isUnrecognised (bodyOf "ValidateParameter" c13BodyFlow) = 0 ∧
+    Flow.countL isCall (bodyOf "ValidateParameter" c13BodyFlow) = 0 := by decide +kernel
+
 end TracePart
 
 end KinModel.C13
